@@ -135,6 +135,10 @@ def gen_case(rng: random.Random, cfg: str | None = None, max_nodes: int = 8, fra
             en.append(F.K_IOU)
         if ndim == 3 and spec["scale"] in (None, [1.0] * ndim) and rng.random() < 0.3:
             en += rng.sample([F.K_ELL, F.K_CIRC, F.K_PERIM], rng.randint(1, 3))
+        elif ndim == 4 and spec["scale"] in (None, [1.0] * ndim) and rng.random() < 0.35:
+            # 3D+t: surface area / sphericity (the ellipsoid axes raise "math domain error" on the
+            # flat masks a 3x3x3 volume mostly holds — upstream numerics, not generated)
+            en += rng.sample([F.K_CIRC, F.K_PERIM], rng.randint(1, 2))
         spec["enable"] = en
     else:
         r = rng.random()
@@ -374,6 +378,17 @@ def gen_op(rng: random.Random, case: F.Case, tracks, kinds: list[str], always_re
                 if px:
                     return {"op": "paint", "value": fresh_node_id(rng, tracks), "pixels": px,
                             "tid": g.nodes[p_].get("track_id", 1), "force": int(rng.random() < 0.3)}
+        if rng.random() < 0.06 and g.number_of_edges() and not case.spec.get("orphan_labels"):
+            # erase EXACTLY the overlap of an edge's end points from the child (both survive): the
+            # true IoU drops to 0 — while the feature is off the stored value goes stale
+            u_, v_ = rng.choice(list(g.edges))
+            tv = g.nodes[v_]["time"]
+            ou = {o for o in range(frame) if int(seg[g.nodes[u_]["time"] * frame + o]) == u_}
+            ov = [o for o in range(frame) if int(seg[tv * frame + o]) == v_]
+            inter = [o for o in ov if o in ou]
+            if inter and len(inter) < len(ov):
+                return {"op": "paint", "value": 0, "pixels": sorted(tv * frame + o for o in inter),
+                        "tid": 1, "force": 0}
         here = [n for n in nodes if g.nodes[n]["time"] == t]
         k = rng.randint(1, 5)
         offs: list[int] = []
@@ -442,7 +457,8 @@ def gen_op(rng: random.Random, case: F.Case, tracks, kinds: list[str], always_re
     if kind in ("undo", "redo"):
         return {"op": kind}
     if kind in ("enable", "disable"):
-        pool = [F.K_POS, F.K_AREA, F.K_IOU] + ([F.K_ELL, F.K_CIRC, F.K_PERIM] if (case.ndim == 3 and case.scale in (None, [1.0] * 3)) else [])
+        pool = [F.K_POS, F.K_AREA, F.K_IOU] + ([F.K_ELL, F.K_CIRC, F.K_PERIM] if (case.ndim == 3 and case.scale in (None, [1.0] * 3)) else
+                                                ([F.K_CIRC, F.K_PERIM] if (case.ndim == 4 and case.scale in (None, [1.0] * 4)) else []))
         if case.cfg != "seg":
             pool = [F.K_LIN]
         keys = rng.sample(pool, rng.randint(1, min(3, len(pool))))
